@@ -50,6 +50,7 @@ GATES = {
     "header-monitors-ran": ["Block.hash", "Block.serialize", "Block.target", "Block.check_pow", "HeadersMessage.is_valid"],
     "bits-monitors-ran": ["bits_to_target", "target_to_bits", "calculate_new_bits"],
     "tree-shapes": ["tree:single-leaf", "tree:odd-level", "tree:power-of-two", "tree:right-child-missing-above-leaves"],
+    "object-reuse": ["reuse:same-object-validated-twice"],
     "match-shapes": ["proof:none-matched", "proof:all-matched", "proof:single-match", "proof:last-leaf-of-odd-level-matched"],
     "honest-accepted": ["proof:honest-accepted"],
     "tamper-classes": ["tamper:" + t for t in TAMPERS],
@@ -612,6 +613,16 @@ def run_proof(ctx, hdr, total, hashes, flags, ids_be, honest_be, tamper):
         v = outcome(mb.is_valid)
         if v == ("ok", True):
             outcome(mb.proved_txs)
+        # the same object validated again: the verdict (and the ids) must not depend on earlier validations
+        # (each call is decided by the contracts; the two verdicts are also compared with each other)
+        if tamper is None or (hash(raw) & 7) == 0:
+            ctx.count("reuse:same-object-validated-twice")
+            v2 = outcome(mb.is_valid)
+            ctx.monitor("proof-revalidation")
+            if (v2[0], v2[1] if v2[0] == "ok" else None) != (v[0], v[1] if v[0] == "ok" else None):
+                _viol(ctx, "proof-verdict-depends-on-earlier-validation", f"first {v} second {v2}", {"op": "proof-raw", "raw": raw})
+            if v2 == ("ok", True):
+                outcome(mb.proved_txs)
         return v
     finally:
         _state.update(ids=None, honest=None, tamper=None)
